@@ -238,6 +238,9 @@ func (core *JApiCore) setCurrentDirective(keyword string, keywordCoords directiv
 	}
 
 	core.currentDirective = d
+	if core.firstDirective == nil {
+		core.firstDirective = d
+	}
 
 	return nil
 }
